@@ -316,3 +316,269 @@ Proof.
       * subst ts0. rewrite H1. rewrite steps_nil; auto. left. auto.
       * subst ts0. rewrite H1. apply IH; auto.
 Qed.
+
+(* ------------------------------------------------------------------ *)
+(* the last step of create()                                           *)
+(* ------------------------------------------------------------------ *)
+Definition enum_items (vals : list name) : keylist :=
+  fold_left (fun acc x => set_key (x, false) (PStr x) acc) vals [].
+
+Definition finish (W : wsdl) (path : str) (s : sobj) : pv :=
+  match s with
+  | SSimple _ _ (v :: vs) => PObj (name_or_0 W path) (enum_items (v :: vs))
+  | SEnumVal _ => PObj (name_or_0 W path) []
+  | _ => build_root W s
+  end.
+
+Lemma create_finish W path :
+  create W path =
+  match find_path W path with
+  | FErr => ROther
+  | FNone => RTypeNotFound
+  | FTypeNotFound => RTypeNotFound
+  | FOk s => ROk (finish W path s)
+  end.
+Proof.
+  unfold create, finish. destruct (find_path W path) as [| | |s]; auto.
+  destruct s as [t|sns sn vals|v|en|a| |bn]; auto. destruct vals; auto.
+Qed.
+
+Definition enum_item_ok (vals : list name) (kv : key * pv) : Prop :=
+  exists val, In val vals /\ kv = ((val, false), PStr val).
+
+Lemma set_key_items_ok vals val l :
+  In val vals -> Forall (enum_item_ok vals) l ->
+  Forall (enum_item_ok vals) (set_key (val, false) (PStr val) l).
+Proof.
+  intros Hv. induction l as [|[k v] l IH]; intro H.
+  - constructor; [|constructor]. exists val. auto.
+  - inversion H; subst. cbn. destruct (key_eqb (val, false) k) eqn:E.
+    + apply key_eqb_eq_l in E. subst k. constructor; auto. exists val. auto.
+    + constructor; auto.
+Qed.
+
+Lemma set_key_length k v l : length (set_key k v l) <= Datatypes.S (length l).
+Proof.
+  induction l as [|[k' v'] l IH]; cbn; auto. destruct (key_eqb k k'); cbn; lia.
+Qed.
+
+Lemma enum_fold vals0 vals acc :
+  (forall x, In x vals -> In x vals0) -> Forall (enum_item_ok vals0) acc ->
+  let items := fold_left (fun acc x => set_key (x, false) (PStr x) acc) vals acc in
+  Forall (enum_item_ok vals0) items /\
+  length items <= length acc + length vals /\
+  (forall k, get_key k items =
+             if existsb (fun x => key_eqb k (x, false)) vals then Some (PStr (fst k)) else get_key k acc).
+Proof.
+  revert acc. induction vals as [|x vals IH]; intros acc Hsub Hacc; cbn.
+  - repeat split; auto. lia.
+  - assert (Hacc' : Forall (enum_item_ok vals0) (set_key (x, false) (PStr x) acc)).
+    { apply set_key_items_ok; auto. apply Hsub. left. reflexivity. }
+    destruct (IH (set_key (x, false) (PStr x) acc) (fun y Hy => Hsub y (or_intror Hy)) Hacc') as [H1 [H2 H3]].
+    repeat split; auto.
+    + pose proof (set_key_length (x, false) (PStr x) acc). lia.
+    + intro k. rewrite H3. rewrite get_set_key.
+      destruct (existsb (fun x0 => key_eqb k (x0, false)) vals) eqn:E.
+      * rewrite orb_true_r. reflexivity.
+      * rewrite orb_false_r. destruct (key_eqb k (x, false)) eqn:Ek; auto.
+        apply key_eqb_eq_l in Ek. subst k. reflexivity.
+Qed.
+
+Lemma get_key_in k v l : get_key k l = Some v -> In (k, v) l.
+Proof.
+  induction l as [|[k' v'] l IH]; cbn; [discriminate|].
+  destruct (key_eqb k k') eqn:E.
+  - intro H. inversion H; subst. apply key_eqb_eq_l in E. subst. left. reflexivity.
+  - intro H. right. auto.
+Qed.
+
+Lemma pv_eqb_str x : pv_eqb (PStr x) (PStr x) = true.
+Proof. cbn. apply N.eqb_refl. Qed.
+
+Lemma enum_items_ok c vals : enum_ok vals (PObj c (enum_items vals)) = true.
+Proof.
+  unfold enum_items.
+  destruct (enum_fold vals vals [] (fun x H => H) (Forall_nil _)) as [H1 [H2 H3]].
+  cbn zeta in *. unfold enum_ok. rewrite !andb_true_iff. repeat split.
+  - apply forallb_forall. intros val Hv. apply existsb_exists.
+    exists ((val, false), PStr val). split.
+    + apply get_key_in. rewrite H3.
+      replace (existsb (fun x => key_eqb (val, false) (x, false)) vals) with true; [reflexivity|].
+      symmetry. apply existsb_exists. exists val. split; auto. apply key_eqb_refl_l.
+    + cbn [fst snd]. rewrite key_eqb_refl_l, pv_eqb_str. reflexivity.
+  - apply forallb_forall. intros it Hit. rewrite Forall_forall in H1.
+    destruct (H1 it Hit) as [val [Hv ->]]. apply existsb_exists. exists val. split; auto.
+    cbn [fst snd]. rewrite key_eqb_refl_l, pv_eqb_str. reflexivity.
+  - apply Nat.leb_le. cbn in H2. exact H2.
+Qed.
+
+Lemma find_named_qn W q t : find_named W q = Some (SComplex t) -> qn_of t = q.
+Proof.
+  unfold find_named. destruct (find_type (w_types W) q) as [t'|] eqn:E.
+  - intro H. inversion H; subst. unfold find_type in E. apply find_some in E as [_ E].
+    apply qn_eqb_eq_l in E. exact E.
+  - destruct (find_simple W q) as [[[ns n] vals]|]; discriminate.
+Qed.
+
+Lemma finish_ok W path s tg :
+  wf_names W = true -> repr W s tg -> target_ok W false tg (finish W path s) = true.
+Proof.
+  intros Hn Hrep. destruct s as [t|sns sn vals|v|en|a| |bn]; destruct tg as [q|]; cbn in Hrep; try contradiction.
+  - cbn [finish target_ok]. rewrite Hrep. rewrite <- (find_named_qn W q t Hrep).
+    apply create_mirrors_type_l; auto. eapply find_named_complex_in; eauto.
+  - unfold target_ok. rewrite Hrep. destruct vals as [|v vs]; [reflexivity|].
+    cbn [finish]. apply enum_items_ok.
+  - reflexivity.
+  - reflexivity.
+Qed.
+
+(* ------------------------------------------------------------------ *)
+(* create() on every well-formed spelling meets the specification      *)
+(* ------------------------------------------------------------------ *)
+Definition des (o : option (list target)) : designation :=
+  match o with Some ts => DTargets ts | None => DNoClaim end.
+
+Lemma from_root_ok W sp s tg :
+  wf_names W = true -> wf_refs W = true -> wf_spelling sp = true -> repr W s tg ->
+  outcome_ok W false (des (steps W (sp_members sp) [tg]))
+    (match walk_sp W s (sp_members sp) with
+     | LNone => RTypeNotFound
+     | LTypeNotFound => RTypeNotFound
+     | LOk s' => ROk (finish W (render sp) s')
+     end) = true.
+Proof.
+  intros Hn Hr Hsp Hrep. unfold wf_spelling in Hsp.
+  apply andb_true_iff in Hsp as [Hsp Ha]. apply andb_true_iff in Hsp as [_ Hm].
+  pose proof (walk_refines W Hn Hr (sp_members sp) s tg Hrep Hm Ha) as H.
+  destruct (steps W (sp_members sp) [tg]) as [ts|]; [|reflexivity].
+  destruct H as [[H1 H2]|[s' [tg' [H1 [H2 H3]]]]]; subst ts; rewrite H1; cbn [des outcome_ok].
+  - reflexivity.
+  - cbn [existsb]. rewrite (finish_ok W (render sp) s' tg' Hn H3). reflexivity.
+Qed.
+
+Lemma find_filter {A} (f : A -> bool) l :
+  find f l = match filter f l with x :: _ => Some x | [] => None end.
+Proof. induction l as [|a l IH]; cbn; auto. destruct (f a); auto. Qed.
+
+Lemma wf_refs_elem W e : wf_refs W = true -> In e (w_elems W) -> tref_ok W (snd e) = true.
+Proof.
+  unfold wf_refs. intros H Hi. apply andb_true_iff in H as [H _]. rewrite forallb_forall in H. auto.
+Qed.
+
+Lemma is_builtin_not_w3 n u : starts_with w3_prefix u = false -> is_builtin_ref n u = false.
+Proof. unfold is_builtin_ref. intros ->. apply andb_false_r. Qed.
+
+Theorem create_meets_spec_l W sp :
+  wf_names W = true -> wf_refs W = true -> wf_spelling sp = true ->
+  spec_check W false sp (create W (render sp)) = true.
+Proof.
+  intros Hn Hr Hsp. rewrite create_finish, (find_path_render W sp Hsp).
+  unfold spec_check, designate, find_sp, root_targets.
+  assert (Hmem : forallb member_ok (sp_members sp) = true /\ attrs_last (sp_members sp) = true).
+  { unfold wf_spelling in Hsp. apply andb_true_iff in Hsp as [Hsp Ha].
+    apply andb_true_iff in Hsp as [_ Hm]. auto. }
+  destruct Hmem as [Hm Ha].
+  destruct (root_uri W (sp_root sp)) as [u|]; [|reflexivity].
+  destruct (starts_with w3_prefix u) eqn:Ew3; [reflexivity|].
+  unfold root_lookup. rewrite (is_builtin_not_w3 _ _ Ew3).
+  destruct (lookup_uri W u) as [ns|]; [|cbn; rewrite steps_nil; auto].
+  destruct (lookup_name W (root_name (sp_root sp))) as [nm|]; [|cbn; rewrite steps_nil; auto].
+  unfold find_gelem. rewrite find_filter.
+  destruct (filter (fun e => qn_eqb (fst (fst e), snd (fst e)) (ns, nm)) (w_elems W)) as [|[[ens en] ty] rest] eqn:Ef.
+  - (* no global element of that name *)
+    cbn [map app]. unfold is_type.
+    destruct (find_named W (ns, nm)) as [s0|] eqn:Efn.
+    + cbn [map existsb]. rewrite orb_false_r.
+      pose proof (from_root_ok W sp s0 (TgType (ns, nm)) Hn Hr Hsp (repr_named W _ _ Efn)) as H.
+      unfold des in H. destruct (steps W (sp_members sp) [TgType (ns, nm)]); auto.
+      destruct (walk_sp W s0 (sp_members sp)); exact H.
+    + cbn. rewrite steps_nil; auto.
+  - (* a global element: BlindQuery takes it first *)
+    assert (Hin : In (ens, en, ty) (w_elems W)).
+    { assert (In (ens, en, ty) (filter (fun e => qn_eqb (fst (fst e), snd (fst e)) (ns, nm)) (w_elems W)))
+        by (rewrite Ef; left; reflexivity).
+      apply filter_In in H. tauto. }
+    destruct (resolve_elem_repr W en ty (wf_refs_elem W _ Hr Hin)) as [s0 [Hs0 Hrep0]].
+    rewrite Hs0. cbn [map app snd].
+    pose proof (from_root_ok W sp s0 (target_of_tref ty) Hn Hr Hsp Hrep0) as H.
+    remember (map (fun e : nsid * name * tref => target_of_tref (snd e)) rest ++
+              (if is_type W (ns, nm) then [TgType (ns, nm)] else [])) as more.
+    cbn [map existsb]. apply orb_true_iff. left.
+    unfold des in H. destruct (steps W (sp_members sp) [target_of_tref ty]); auto.
+    destruct (walk_sp W s0 (sp_members sp)); exact H.
+Qed.
+
+(* ------------------------------------------------------------------ *)
+(* corollaries                                                         *)
+(* ------------------------------------------------------------------ *)
+Lemma create_unknown_raises_l W sp :
+  wf_names W = true -> wf_refs W = true -> wf_spelling sp = true ->
+  (forall d, In d (designate W sp) -> d = DTargets []) ->
+  create W (render sp) = RTypeNotFound.
+Proof.
+  intros Hn Hr Hsp Hall. pose proof (create_meets_spec_l W sp Hn Hr Hsp) as H.
+  unfold spec_check in H. apply existsb_exists in H as [d [Hd Ho]].
+  rewrite (Hall d Hd) in Ho. cbn in Ho. destruct (create W (render sp)); try discriminate. reflexivity.
+Qed.
+
+Lemma create_known_l W sp :
+  wf_names W = true -> wf_refs W = true -> wf_spelling sp = true ->
+  (forall d, In d (designate W sp) -> exists tg ts, d = DTargets (tg :: ts)) ->
+  exists v ts tg, create W (render sp) = ROk v /\ In (DTargets ts) (designate W sp) /\
+                  In tg ts /\ target_ok W false tg v = true.
+Proof.
+  intros Hn Hr Hsp Hall. pose proof (create_meets_spec_l W sp Hn Hr Hsp) as H.
+  unfold spec_check in H. apply existsb_exists in H as [d [Hd Ho]].
+  destruct (Hall d Hd) as [tg [ts ->]]. cbn [outcome_ok] in Ho.
+  destruct (create W (render sp)) as [v| |]; try discriminate.
+  apply existsb_exists in Ho as [tg' [Ht Hok]]. exists v, (tg :: ts), tg'. auto.
+Qed.
+
+Lemma create_never_partial_l W sp v :
+  wf_names W = true -> wf_refs W = true -> wf_spelling sp = true ->
+  (forall d, In d (designate W sp) -> d <> DNoClaim) ->
+  create W (render sp) = ROk v ->
+  exists ts tg, In (DTargets ts) (designate W sp) /\ In tg ts /\ target_ok W false tg v = true.
+Proof.
+  intros Hn Hr Hsp Hall Hc. pose proof (create_meets_spec_l W sp Hn Hr Hsp) as H.
+  unfold spec_check in H. apply existsb_exists in H as [d [Hd Ho]]. rewrite Hc in Ho.
+  destruct d as [ts| |]; cbn in Ho.
+  - destruct ts as [|tg ts]; [discriminate|].
+    apply existsb_exists in Ho as [tg' [Ht Hok]]. exists (tg :: ts), tg'. auto.
+  - discriminate.
+  - exfalso. eapply Hall; eauto.
+Qed.
+
+Definition same_members (a b : result) : Prop :=
+  match a, b with
+  | ROk (PObj _ i1), ROk (PObj _ i2) => i1 = i2
+  | RTypeNotFound, RTypeNotFound => True
+  | ROther, ROther => True
+  | _, _ => False
+  end.
+
+Lemma finish_members W p1 p2 s :
+  same_members (ROk (finish W p1 s)) (ROk (finish W p2 s)).
+Proof.
+  destruct s as [t|sns sn vals|v|en|a| |bn]; cbn; auto. destruct vals; cbn; auto.
+Qed.
+
+Lemma create_spelling_independent_l W r1 r2 ms :
+  wf_spelling (mkSp r1 ms) = true -> wf_spelling (mkSp r2 ms) = true ->
+  root_uri W r1 = root_uri W r2 -> root_name r1 = root_name r2 ->
+  find_path W (render (mkSp r1 ms)) = find_path W (render (mkSp r2 ms)) /\
+  same_members (create W (render (mkSp r1 ms))) (create W (render (mkSp r2 ms))).
+Proof.
+  intros H1 H2 Hu Hnm.
+  assert (Hf : find_path W (render (mkSp r1 ms)) = find_path W (render (mkSp r2 ms))).
+  { rewrite !find_path_render by assumption. unfold find_sp. cbn [sp_root sp_members].
+    rewrite Hu, Hnm. reflexivity. }
+  split; [exact Hf|]. rewrite !create_finish, Hf.
+  destruct (find_path W (render (mkSp r2 ms))); cbn; auto. apply finish_members.
+Qed.
+
+(* a string no well-formed spelling renders to, accepted all the same *)
+Lemma not_rendered path :
+  (forall sp, wf_spelling sp = true -> render sp = path ->
+              split path = render_root (sp_root sp) :: map render_member (sp_members sp)).
+Proof. intros sp H <-. apply split_wellformed_l. exact H. Qed.
